@@ -6,6 +6,24 @@ ALL = [f"C{i:02d}" for i in range(1, 28)]
 
 # id -> (level text, level note, technique, design ref)
 CLAIMED = {
+ "C12": (
+  "Coq theorems about a Gallina model of Liquid conditions: truthy v = false iff v is false/nil/undefined (all values); and/or/not on "
+  "truthiness with short circuit; for EVERY condition tree, parse (print e) = e where print parenthesises only where the documented "
+  "grouping needs it (so and/or have equal precedence and group from the right, comparisons bind tighter, parentheses override), and "
+  "every flat and/or chain of any length is right-nested; == symmetric with the documented table (bools only equal bools, nil = undefined, "
+  "empty/blank, numbers by value across int/decimal); each operator built from ==/< as documented; < raises exactly the Liquid type error "
+  "and exactly on non-orderable pairs; contains clauses; if/elsif/else picks the first truthy arm and evaluates nothing after it, else iff all "
+  "falsy, and conversely; unless c = if not c; case/when renders a when block once per == match and else iff no earlier match. The one "
+  "known finding (contains matches true against the integer 1) is a witness theorem. Tied to /repo by the exhaustive 30x30 operand "
+  "representatives x 8 operators cross product (literals and variables), every and/or/not chain with every single parenthesisation, random "
+  "trees, if/unless/elsif chains, case/when layouts and ternaries, rendered sync and async and evaluated inside Coq, plus an independent "
+  "documented-semantics evaluator.",
+  "Trusted: Coq kernel+vm_compute; harness operand table/spelling/Gallina printers and the documented-semantics evaluator; Python ==/< on the "
+  "operand universe, str.isspace, str() of numbers and the expression tokenizer are modelled, not verified; floats restricted to short "
+  "decimals; drops and user-defined __eq__/__lt__/__contains__ outside the model. All theorems closed under the global context.",
+  "Coq proof (Pratt-parser round trip by strong induction on tree size with explicit fuel, case analysis on the value universe) + "
+  "model/implementation correspondence by vm_compute",
+  "DESIGN.md §6 C12"),
  "C24": (
   "Coq theorems over all operation sequences / all atomic-section schedules of a Gallina model of LRUCache and "
   "ThreadSafeLRUCache (capacity+NoDup invariant, eviction = oldest ghost time stamp, get = last store of the history, "
